@@ -285,6 +285,11 @@ func checkC23(c *Ctx) *report.Result {
 			r.Ob("S-cpu", got == want && !cond, fmt.Sprintf("opcode %d/%02X (%s) performs exactly its documented memory writes, on every path", page, k, doc.Mnemonic), "", fmt.Sprintf("%d decoder writes (conditional on data: %v), %d documented: an undocumented write could deliver a byte the program never wrote to SB, a skipped one loses a byte it did write", got, cond, want))
 		}
 	}
+	// ... and the byte such a write hands to the decoder is the operand the instruction names
+	r.Rule("S-data", "the byte a store instruction hands to the decoder is its documented operand (rules F-deps, F-exact, F-frame of C01 restricted to the memory output)")
+	adopt(r, c.sibling("C01"), map[string]string{"F-deps": "S-data", "F-exact": "S-data", "F-frame": "S-data"}, "an instruction that stores another register than the one it names delivers a byte the program did not write to SB", func(f report.Finding) bool {
+		return strings.Contains(f.Construct, " mem") || strings.Contains(f.Detail, "mem")
+	})
 	// ---- S-read
 	for _, a := range []int{0xFF01, 0xFF02} {
 		ev := c.evalDecoder(false, a, a, nil, nil)
